@@ -158,7 +158,12 @@ pub fn record_c01(out: &str, proc_id: usize, nitems: usize) {
         if all_ok {
             let mut perm: Vec<usize> = (0..item.lines.len()).collect();
             for i in (1..perm.len()).rev() { let j = rng.below(i + 1); perm.swap(i, j); }
-            for order in [(0..item.lines.len()).collect::<Vec<_>>(), (0..item.lines.len()).collect::<Vec<_>>(), perm] {
+            // rules that bind alphas or variables keep tables whose internal order differs from call to call: the same call many times over
+            let binds = item.groups.iter().any(|g| g.rule.iter().any(|r| r.contains('=') || r.chars().zip(r.chars().skip(1)).any(|(a, b)| (a.is_ascii_uppercase() || ('α'..='ω').contains(&a)) && b.is_ascii_lowercase())));
+            let ident: Vec<usize> = (0..item.lines.len()).collect();
+            let mut orders = vec![ident.clone(), ident.clone(), perm];
+            if binds { for _ in 0..6 { orders.push(ident.clone()); } sum.count("repeated_calls_on_binding_rules", 6); }
+            for order in orders {
                 ncall += 1;
                 let lines: Vec<String> = order.iter().map(|i| item.lines[*i].clone()).collect();
                 match run(&lines) {
